@@ -15,7 +15,7 @@ from mdsim.seams import pool as spool
 PROP = "C03"
 LEVEL = "exploration"
 TECHNIQUE = "deterministic simulation of the worker pool (S-POOL seam: seeded task->worker schedules, recycling, fork/spawn state, parent history) + per-item BFS/endpoint reference model"
-RUNS = {"quick": 1000, "thorough": 80000}
+RUNS = {"quick": 1400, "thorough": 80000}
 JOB_TIMEOUT = 600.0
 COMPONENTS = {
     "real": ["MazeDataset.generate / from_config", "_maze_gen_init_worker", "_generate_maze_helper", "all generators", "generate_random_path", "find_shortest_path", "SolvedMaze constructor", "pickle round trips of initargs/tasks/results"],
